@@ -128,6 +128,10 @@ void WireMonitor::on_send(const Datagram &dg)
 	for (auto &r : m.answers) {
 		if (r.owner.dotted() != qn) v->fail("C10", "C10:owner", "answer owner name '" + r.owner.dotted().substr(0, 60) + "' does not resolve to the question name");
 		if (r.type == refdns::T_TXT && r.txt.size() >= 2) n_txt_multi++;
+		// "each answer carries the ... type of the query it answers": the record itself, not only the echoed question (an A question
+		// under the tunnel domain is answered with a CNAME record, as the protocol document says)
+		if (tunnel_name && r.type != m.q[0].type && !(m.q[0].type == refdns::T_A && r.type == refdns::T_CNAME))
+			v->fail("C10", "C10:record-type", fmt("answer record of type %u in the answer to a type %u query for '%.50s'", r.type, m.q[0].type, qn.c_str()));
 	}
 	if (m.q[0].type == refdns::T_NS && tunnel_name) {
 		n_aux++;
